@@ -49,4 +49,22 @@ def bounded(pb, interp, rng, tier):
         tol = 64 * np.finfo(float).eps * logn * np.abs(z).max()
         if not err <= tol:
             fail("real-part-identity.long-input", f"float64,N={n}", f"max |(-1)^m Re out[m] - z[2m]| = {err:.3e}", f"<= {tol:.1e} (FFT rounding)")
+    # the same in single precision: a float32 input stays float32-accurate however long it is (the mixer's phase
+    # must not be accumulated at working precision); bound = single-precision FFT rounding, not a copied tolerance
+    for logn in (18,):
+        n = 2 ** logn
+        z64 = np.random.default_rng(11 + logn).standard_normal(n)
+        z = z64.astype(np.float32)
+        ev += 1
+        out = f(z)
+        m = np.arange(out.shape[0])
+        err = np.abs(np.where(m % 2 == 0, 1.0, -1.0) * out.real.astype(float) - z[::2].astype(float)).max()
+        tol = 64 * float(np.finfo(np.float32).eps) * logn * float(np.abs(z).max())
+        if not err <= tol:
+            fail("real-part-identity.long-input", f"float32,N={n}", f"max |(-1)^m Re out[m] - z[2m]| = {err:.3e}", f"<= {tol:.1e} (single-precision FFT rounding)")
+        # and the whole result agrees with the double-precision result of the same samples to single precision
+        ref = f(z.astype(float))
+        err = np.abs(out - ref).max()
+        if not err <= tol:
+            fail("float32-vs-float64.long-input", f"float32,N={n}", f"max |out32 - out64| = {err:.3e}", f"<= {tol:.1e}")
     return {"evaluations": ev, "distinct_nontrivial": ev, "failures": fails, "samples": [{"dtypes": "f2 f4 f8 i2 i4 i8 u2 in both byte orders", "long": "N = 2^16+1, 2^20"}]}
